@@ -29,6 +29,12 @@ func (c *context) ParseGo() bool {
 	if err != nil {
 		panic(err)
 	}
+	// 'go list' names the package's files by their physical path. The overlay
+	// only replaces parser.gen.go if it is keyed by that same path, so resolve
+	// symbolic links in the project path.
+	if realDir, err := filepath.EvalSymlinks(absDir); err == nil {
+		absDir = realDir
+	}
 
 	parserGenPath := filepath.Join(absDir, parserGenGo)
 
